@@ -195,6 +195,160 @@ def gen_potrf_float(r, n):
     return dict(op=line, kind="tol", n=n, name="potrf", cfg=f"{'u' if upper else 'l'}{oa}-float")
 
 
+def lu_factors(r, n):
+    """L unit lower with entries in {0, ±1/4, ±1/2} (scale 4: ints in {0,±1,±2}, diagonal 4),
+    U upper with ±2^k diagonal (k=2..4): partial pivoting has a unique maximum in every column"""
+    dens = r.choice([1, 2, 3])
+    L4 = [[4 if i == j else (small(r, 2, dens) if j < i else 0) for j in range(n)] for i in range(n)]
+    U = [[r.choice([1, -1]) * (1 << r.range(2, 4)) if i == j else (small(r, 3, dens) if j > i else 0) for j in range(n)] for i in range(n)]
+    return L4, U
+
+
+def gen_lu_matrix(r, n):
+    """A = Pi^T L U with scale 4 (entries are multiples of 1/4)"""
+    L4, U = lu_factors(r, n)
+    A4 = mm(L4, U)
+    return perm_rows(A4, rand_perm(r, n)), 2
+
+
+def gen_getrf(r, n, singular=False):
+    oa = r.choice("rc")
+    A, s = gen_lu_matrix(r, n)
+    if singular and n > 0:
+        k = r.below(n)
+        for i in range(n): A[i][k] = 0
+    line = f"getrf {oa} {n} {emit(A, s)}"
+    return dict(op=line, kind="exact", n=n, name="getrf", cfg=oa + ("-singular" if singular else ""))
+
+
+def pstrf_matrix(r, n, rank):
+    """PSD integer matrix of the given rank on which pivoted Cholesky stays exact:
+    A = Pi (L L^T) Pi^T, L n x rank; the first `rank` rows form groups with equal diagonal 2^e
+    (e decreasing from group to group, >= 4), coupled only to earlier groups by entries in {-1,0,1};
+    the remaining rows have entries in {-1,0,1}.  The running diagonal maximum is then always a
+    power of four attained inside the current group."""
+    L = [[0] * rank for _ in range(n)]
+    ngroups = r.range(1, min(8, rank)) if rank > 0 else 0
+    cuts = sorted({r.below(rank) for _ in range(ngroups - 1)} | {0}) if rank > 0 else []
+    group = [0] * rank
+    for t in range(rank):
+        group[t] = sum(1 for c in cuts if c <= t) - 1
+    ng = len(cuts)
+    for t in range(rank):
+        e = 4 + (ng - 1 - group[t])
+        L[t][t] = 1 << e
+        for c in range(t):
+            if group[c] < group[t]:
+                L[t][c] = small(r, 1, 2)
+    for i in range(rank, n):
+        for c in range(rank):
+            L[i][c] = small(r, 1, 2)
+    A = mm(L, tr(L)) if rank > 0 else [[0] * n for _ in range(n)]
+    p = rand_perm(r, n)
+    return [[A[p[i]][p[j]] for j in range(n)] for i in range(n)]
+
+
+def gen_pstrf(r, n, rank=None):
+    upper, oa = r.chance(1, 2), r.choice("rc")
+    if rank is None:
+        rank = r.choice([n, n, r.range(0, n), r.range(0, n), max(0, n - 1), min(n, 1)])
+    A = pstrf_matrix(r, n, rank)
+    line = f"pstrf {'u' if upper else 'l'} {oa} {n} {emit(A)}"
+    return dict(op=line, kind="exact", n=n, name="pstrf", cfg=f"{'u' if upper else 'l'}{oa}-def{n - rank if n - rank < 3 else '3+'}", rank=rank)
+
+
+def float_psd(r, n, rank, bits=8):
+    one = 1 << bits
+    M = [[r.range(-one, one) for _ in range(rank)] for _ in range(n)]
+    A = mm(M, tr(M)) if rank else [[0] * n for _ in range(n)]
+    if rank == n:
+        for i in range(n): A[i][i] += n * one * one
+    return A, 2 * bits
+
+
+def float_general(r, n, bits=8):
+    """well-conditioned general matrix: random entries in [-1,1] plus a dominant, randomly row-permuted diagonal"""
+    one = 1 << bits
+    A = [[r.range(-one, one) for _ in range(n)] for _ in range(n)]
+    for i in range(n):
+        A[i][i] += r.choice([1, -1]) * (n + 1) * one
+    return perm_rows(A, rand_perm(r, n)), bits
+
+
+def rhs_for(r, A, sA, n, m, left, vec, exact_from=None):
+    """right-hand side B = A X0 (left) / X0 A (right) for small integer X0, or random small integers"""
+    if vec:
+        x0 = [r.range(-3, 3) for _ in range(n)]
+        b = mv(A if left else tr(A), x0)
+        return emitv(b, sA)
+    if left:
+        X0 = [[r.range(-3, 3) for _ in range(m)] for _ in range(n)]
+        B = mm(A, X0)
+    else:
+        X0 = [[r.range(-3, 3) for _ in range(n)] for _ in range(m)]
+        B = mm(X0, A)
+    return emit(B, sA)
+
+
+def gen_solve(r, n, tag=None, tol=False):
+    tag = tag or r.choice(["spd", "spd", "semi", "semi", "lu", "lu", "tl", "tu", "tul", "tuu"])
+    left = r.chance(1, 2)
+    oa = r.choice("rc")
+    K = r.choice(["v", "v", "r", "c"])
+    form = r.choice("si")
+    m = 1 if K == "v" else r.choice([1, 2, 3, 5, 17])
+    s = 0
+    extra = ""
+    if tag == "spd":
+        if tol:
+            A, s = float_spd(r, n)
+        else:
+            L = int_chol_factor(r, n); A = mm(L, tr(L))
+    elif tag == "semi":
+        if tol:
+            rank = r.choice([n, r.range(1, n)]); A, s = float_psd(r, n, rank)
+        else:
+            rank = r.choice([n, n, r.range(0, n), max(0, n - 1)]); A = pstrf_matrix(r, n, rank)
+        extra = f"-def{min(n - rank, 3)}"
+    elif tag == "lu":
+        A, s = float_general(r, n) if tol else gen_lu_matrix(r, n)
+    else:
+        upper, unit = tag in ("tu", "tuu"), tag in ("tul", "tuu")
+        A = gen_tri_matrix(r, n, upper, unit)
+        T = tri_part(A, upper, unit)
+    Aeff = T if tag.startswith("t") else A
+    if tol or (tag == "semi" and rank < n) or r.chance(1, 6):
+        cnt = n * m
+        B = " ".join(str(r.range(-5, 5)) for _ in range(cnt))
+    else:
+        B = rhs_for(r, Aeff, s, n, m, left, K == "v")
+    line = f"solve {tag} {'L' if left else 'R'} {oa} {K} {form} {n} {m} {emit(A, s)} {B}"
+    return dict(op=line, kind="tol" if tol else "exact", n=n, name="solve",
+                cfg=f"{tag}{extra}:{'L' if left else 'R'}{oa}{K}{form}" + ("-float" if tol else ""))
+
+
+def gen_oracle_only(r, n):
+    """conjugate gradient, rank-one Cholesky update, symmetric eigendecomposition: residual oracle only"""
+    k = r.below(3)
+    oa = r.choice("rc")
+    if k == 0:
+        A, s = float_spd(r, n)
+        left = r.chance(1, 2); K = r.choice(["v", "r", "c"]); m = 1 if K == "v" else r.choice([1, 3])
+        B = " ".join(str(r.range(-5, 5)) for _ in range(n * m))
+        return dict(op=f"solve cg {'L' if left else 'R'} {oa} {K} {r.choice('si')} {n} {m} {emit(A, s)} {B}",
+                    kind="tol", n=n, name="cg", cfg=f"{'L' if left else 'R'}{oa}{K}")
+    if k == 1:
+        A, s = float_spd(r, n)
+        alpha = r.choice(["1", "4", "1/4", "2", "3/2"])
+        beta = r.choice(["1", "1/2", "3", "0", "-1/8", "-1/2"])
+        v = " ".join(fmt(r.range(-256, 256), 8) for _ in range(n))
+        return dict(op=f"cholup {oa} {n} {alpha} {beta} {emit(A, s)} {v}", kind="tol", n=n, name="cholup", cfg=f"{oa}:a{alpha}:b{beta}")
+    one = 256
+    M = [[r.range(-one, one) for _ in range(n)] for _ in range(n)]
+    A = [[M[i][j] + M[j][i] for j in range(n)] for i in range(n)]
+    return dict(op=f"syev {oa} {n} {emit(A, 8)}", kind="tol", n=n, name="syev", cfg=oa)
+
+
 def load_corpus():
     d = os.path.join(core.VERIF, "corpus", "C02")
     out = []
@@ -234,6 +388,27 @@ def gen_cases(ctx):
     for n in sizes(ctx, r, 3 if q else 0):
         if n <= 40:
             cases.append(gen_potrf_float(r, n))
+    for n in sizes(ctx, r, 8 if q else 0):
+        cases.append(gen_getrf(r, n, singular=r.chance(1, 15)))
+    for n in sizes(ctx, r, 8 if q else 0):
+        cases.append(gen_pstrf(r, n))
+        if not q:
+            cases.append(gen_pstrf(r, n, rank=r.range(0, n)))
+    if not q:
+        # every rank deficiency 0..n-1 for a spread of sizes
+        for n in [1, 2, 3, 5, 8, 13, 19, 20, 21, 27, 33, 41, 50, 64, 70]:
+            for rank in range(0, n + 1):
+                cases.append(gen_pstrf(r, n, rank=rank))
+    else:
+        n = r.choice([6, 9, 12, 21, 23])
+        for rank in range(0, n + 1):
+            cases.append(gen_pstrf(r, n, rank=rank))
+    for n in sizes(ctx, r, 25 if q else 0) * (1 if q else 3):
+        cases.append(gen_solve(r, n))
+    for n in sizes(ctx, r, 6 if q else 0):
+        if n <= 40:
+            cases.append(gen_solve(r, n, tag=r.choice(["spd", "lu", "semi"]), tol=True))
+            cases.append(gen_oracle_only(r, n))
     return cases
 
 
@@ -357,7 +532,9 @@ def correspond(ctx, name, cases, hcmd, dcmd, blas=False, model_lines=None):
     fails.sort(key=lambda f: len(f[0]["op"]))
     for c, il, ml, st, detail, err in fails:
         key = f"{st.lower()}:{c['name']}:{c['cfg']}" + (":cblas" if blas else "")
-        kshort = f"{st.lower()}:{c['name']}:{detail.split()[1] if st == 'ORACLE' else ''}" + (":cblas" if blas else "")
+        kshort = classify_key(c, st, detail, il, blas)
+        if not kshort.startswith("C02-"):
+            kshort = f"{st.lower()}:{c['name']}:{detail.split()[1] if st == 'ORACLE' else ''}" + (":cblas" if blas else "")
         if kshort in seen:
             continue
         seen.add(kshort)
@@ -375,15 +552,25 @@ def correspond(ctx, name, cases, hcmd, dcmd, blas=False, model_lines=None):
 def classify_key(c, st, detail, impl_line, blas):
     """stable keys for known findings"""
     t = c["op"].split()
-    if c["name"] == "potrf" and "nan" in impl_line and "info=0" in impl_line:
+    if t[0] == "potrf" and "nan" in impl_line and "info=0" in impl_line:
         return "C02-potrf-zero-pivot-accepted"
+    if t[0] == "potrf" and "potrf-info" in impl_line and int(t[3]) > 32:
+        return "C02-potrf-info-relative-to-block"
+    if t[0] == "potrf" and "potrf-info" in impl_line and (t[1] == "u") == (t[2] == "r"):
+        return "C02-potrf-zero-pivot-accepted"
+    if t[0] == "pstrf" and all(x == "0" for x in t[4:]):
+        return "C02-pstrf-zero-matrix"
+    if t[0] == "solve" and t[1] == "semi" and all(x == "0" for x in t[8:8 + int(t[6]) ** 2]):
+        return "C02-pstrf-zero-matrix"
     return f"{st.lower()}:{c['name']}:{c['cfg']}" + (":cblas" if blas else "")
 
 
 def build(ctx):
-    a = ctx.harness("c02", ["c02.cpp"])
-    b = ctx.harness("c02blas", ["c02.cpp"], flags=["-DC02_USE_SHARK_H"])
-    return a, b
+    from concurrent.futures import ThreadPoolExecutor
+    with ThreadPoolExecutor(max_workers=2) as ex:
+        fa = ex.submit(ctx.harness, "c02", ["c02.cpp"])
+        fb = ex.submit(ctx.harness, "c02blas", ["c02.cpp"], ["-DC02_USE_SHARK_H"])
+        return fa.result(), fb.result()
 
 
 def run(ctx):
